@@ -71,6 +71,8 @@ def run(chk):
     rng = random.Random(chk.seed)
     common.translate_for(chk, ["opcodes"])
     chk.proof = common.prove("C01")
+    if chk.tier == "thorough":
+        common.coqchk(chk, "C01")
     probe = Proc([common.build_probe()])
     model = Proc([common.build_model()])
     mns = mnemonics()
